@@ -86,6 +86,67 @@ def oracle(rep):
                               "properties %r of one object share a snake_case name" % (dup,),
                               {"kind": "position", "version": v, "file": f, "path": path, "names": dup,
                                "theorem": "C10_injective"})
+    # whole documents: a skeleton with EVERY property at EVERY depth of every schema file, converted as a whole
+    # (the functions recurse; a name may be treated differently inside a particular parent)
+    from ocpp.charge_point import camel_to_snake_case, snake_to_camel_case
+    n_docs = 0
+    for v in pos:
+        for f in sorted(glob.glob(os.path.join(C.REPO, "ocpp", v, "schemas", "*.json"))):
+            root = json.load(open(f, encoding="utf-8-sig"))
+
+            def skel(x, depth=0):
+                while isinstance(x, dict) and "$ref" in x:
+                    x = root.get("definitions", {})[x["$ref"].split("/")[-1]]
+                if not isinstance(x, dict) or depth > 12:
+                    return 0
+                if isinstance(x.get("properties"), dict):
+                    return {k: skel(sub, depth + 1) for k, sub in x["properties"].items()}
+                if isinstance(x.get("items"), dict):
+                    return [skel(x["items"], depth + 1)]
+                return 0
+
+            def keys_at(d, path=""):
+                if isinstance(d, dict):
+                    yield path, list(d.keys())
+                    for k, sub in d.items():
+                        yield from keys_at(sub, path + "/" + str(k))
+                elif isinstance(d, list):
+                    for i, sub in enumerate(d):
+                        yield from keys_at(sub, path + "/[]")
+            doc = skel(root)
+            if not isinstance(doc, dict):
+                continue
+            n_docs += 1
+            fn = os.path.basename(f)
+            rep.count("doc:%s:%s" % (v, fn))
+            sn = camel_to_snake_case(doc)
+            back = snake_to_camel_case(sn)
+            a, b = dict(keys_at(doc)), {}
+            # positions are named by the ORIGINAL path: walk the converted documents in parallel
+            def par(x, y, path=""):
+                if isinstance(x, dict) and isinstance(y, dict):
+                    yield path, list(x.keys()), list(y.keys())
+                    for (k, sub), (k2, sub2) in zip(x.items(), y.items()):
+                        yield from par(sub, sub2, path + "/" + str(k))
+                elif isinstance(x, list) and isinstance(y, list):
+                    for sub, sub2 in zip(x, y):
+                        yield from par(sub, sub2, path + "/[]")
+            for path, orig, conv in par(doc, back):
+                if orig != conv:
+                    rep.violation("C10:doc-roundtrip:%s:%s:%s" % (v, fn, path),
+                                  "schema %s, object at %s: names %r come back as %r when the whole document is converted" % (
+                                      fn, path or "/", orig, conv),
+                                  {"kind": "document", "version": v, "file": fn, "path": path, "names": orig, "back": conv,
+                                   "theorem": "C10_roundtrip (whole documents: Names.rekey)"})
+            for path, orig, conv in par(doc, sn):
+                badk = [k for k in conv if not (isinstance(k, str) and k.isidentifier() and k == k.lower() and k.isascii()
+                                                and not keyword.iskeyword(k))]
+                if badk or len(set(conv)) != len(set(orig)):
+                    rep.violation("C10:doc-identifier:%s:%s:%s" % (v, fn, path),
+                                  "schema %s, object at %s: converted as part of the whole document the names become %r" % (fn, path or "/", conv),
+                                  {"kind": "document", "version": v, "file": fn, "path": path, "names": orig, "snake": conv,
+                                   "theorem": "C10_roundtrip / C10_injective (whole documents)"})
+    rep.coverage["whole_documents"] = n_docs
     for (pkg, modname, name, fields) in class_fields():
         if modname == "datatypes":
             cam = [impl_s2c(f) for f in fields]
@@ -236,6 +297,20 @@ def replay(d):
         props = top_schema_props(d["package"], d["module"], d["class"])
         print("snake_to_camel_case(%r) = %r ; schema properties: %r" % (d["field"], c, props))
         ok = props is not None and c in props
+        print("HOLDS" if ok else "FAILS")
+        return 0 if ok else 1
+    if d.get("kind") == "document":
+        from ocpp.charge_point import camel_to_snake_case, snake_to_camel_case
+        # the object at the reported path, rebuilt from the names recorded in the finding, inside its parents
+        doc = {n: 0 for n in d["names"]}
+        for part in reversed([p for p in d["path"].split("/") if p]):
+            doc = [doc] if part == "[]" else {part: doc}
+        back = snake_to_camel_case(camel_to_snake_case(doc))
+        cur, cur0 = back, doc
+        for part in [p for p in d["path"].split("/") if p]:
+            cur = cur[0] if part == "[]" else cur[list(cur.keys())[0]]
+        print("names %r come back as %r" % (d["names"], list(cur.keys())))
+        ok = list(cur.keys()) == d["names"]
         print("HOLDS" if ok else "FAILS")
         return 0 if ok else 1
     print("re-run: python3 check.py C10 quick")
